@@ -52,3 +52,12 @@ CHECKS["C20"] = dict(
  text="The whitelist and operator tables equal the specification; _validate visits every node and accepts a node iff whitelisted (exhaustive over node classes, constant types, names); construction evaluates nothing; for every template of the grammar (376+ templates, leaves symbolic) and every truth assignment the real evaluator returns the same symbolic term and evaluates the same set of operator applications as CPython - same operator, operands, order and short-circuits for ALL outcome values.",
  note="templates enumerated to a depth bound (the property's quantifier is bounded in depth); CPython is the reference semantics; comparison results identified with booleans; nested-comparison operands and hostile corpus only by bounded stand-ins",
 )
+ENGINES[2]["serves_properties"] = ["C03", "C06", "C14"]
+ENGINES[3]["serves_properties"] = ["C03", "C11", "C12", "C20"]
+ENGINES[1]["serves_properties"] = ["C03", "C06", "C11", "C12", "C14", "C20"]
+CHECKS["C03"] = dict(
+ engine="pyvc (statement-level) + frames + rtc", category="proof", design_ref="DESIGN.md 5/C03",
+ technique="statement-level Hoare triples generated from the real AST (exact Fraction arithmetic as SMT reals), structural contracts on the branch loop, run-time contract BT wrapped around the real branch update as bounded stand-in",
+ text="For ALL shots N>=1 and all frequencies k/N: the real statements `current_shots = int(branch.frequency*shots)`, `subbranch.frequency *= branch.frequency`, and the multiplicity expressions of Result.samples/get_counts establish their exact-arithmetic post-conditions (discharged by z3); the branch loop has the contracted structure (outcome concatenation, unchanged branch when the condition is false, all and only the step's branches added, start from one branch of frequency 1, step frequencies built as Fraction(k, shots)). The lifting to the branch-tree invariant (sum = 1, k/N, N samples) is a stated induction, and is additionally evaluated as a run-time contract on adaptive programs; the shots=None sentences are bounded only (one known finding on the passive simulator, one defect fixed: get_counts).",
+ note="induction over branches/instructions not mechanised; STEP contract of each measurement step checked structurally and at run time, not proved; floats for shots=None",
+)
